@@ -34,13 +34,17 @@ mutual
 theorem spliceNodeG_parseInline (icfg : Inline.Cfg) (b : Block.BNode) :
     spliceNodeG (Inline.parseInline icfg) b = spliceNode icfg b := by
   match b with
-  | ⟨k, r, cs⟩ => simp only [spliceNodeG, spliceNode, spliceListG_parseInline icfg cs]
+  | ⟨k, r, cs⟩ =>
+    simp only [spliceNodeG, spliceNode, spliceListG_parseInline icfg cs]
+    cases spliceList icfg cs <;> rfl
 theorem spliceListG_parseInline (icfg : Inline.Cfg) (cs : List Block.BNode) :
     spliceListG (Inline.parseInline icfg) cs = spliceList icfg cs := by
   match cs with
   | [] => simp only [spliceListG, spliceList]
   | c :: rest =>
     simp only [spliceListG, spliceList, spliceNodeG_parseInline icfg c, spliceListG_parseInline icfg rest]
+    cases hk : c.kind <;> (try (rename_i content mapping; cases Inline.parseInline icfg content mapping)) <;>
+      cases spliceList icfg rest <;> cases spliceNode icfg c <;> rfl
 end
 
 theorem kindToRenderH_ff (lp : List Char) (k : Kind) : kindToRenderH false false lp k = k.toRender lp := by
@@ -109,6 +113,7 @@ theorem renderDocH_conservative (x : Bool) (cfg : DocCfg) (src : List Char) :
       rw [htmlBlock_ofCfg, htmlInline_ofCfg, toRenderH_ff]
       rfl
     simp only [this]
+    cases renderEvents cfg t <;> rfl
 
 theorem bmap_filterMap : ∀ (l : List InlineH.RuleIdH), InlineH.RuleIdH.html ∉ l →
     (l.filterMap InlineH.RuleIdH.base?).map .base = l
